@@ -848,7 +848,6 @@ package yang
 //@   ensures t.resolving == false
 //@   modifies t.resolving
 //@ func (*Typedef).resolve props C09
-//@   requires t != nil && t.Type != nil
 //@   only ensures
 //@   ensures[resolved-once] old(t.Parent == nil || t.YangType != nil) ==> len(result) == 0 && t.YangType == old(t.YangType)
 //@   ensures[a-copy-named-after-the-typedef] old(t.Parent != nil && t.YangType == nil && !t.resolving) && len(result) == 0
